@@ -110,3 +110,37 @@ func cmdAstWrites() {
 		}
 	}
 }
+
+// govc sweep <pkg-suffix>: zero-annotation safety sweep (exploration aid): every function of the package without a
+// contract is verified against a synthesised empty contract; prints the run-time-check obligations that are not proved.
+func cmdSweep(args []string) {
+	p, err := loadProg("/repo", "/verif/contracts")
+	if err != nil {
+		fmt.Println(err)
+		os.Exit(2)
+	}
+	p.curProp = "C07"
+	var results []*FnResult
+	for _, f := range p.allFuncs(args...) {
+		key := funcKey(f)
+		if p.contracts.get(key) != nil || len(f.Blocks) == 0 || strings.HasSuffix(p.fset.Position(f.Pos()).Filename, "_string.go") {
+			continue
+		}
+		syn := &Contract{Key: key, Props: []string{"C07"}, Loops: map[int]*LoopSpec{}, Arith: "int", Unroll: map[int]int{}, File: "synthesised", MayPanic: nil}
+		r := p.verifyFunction(f, syn)
+		results = append(results, r)
+	}
+	solveAll(results, 5, 16)
+	for _, r := range results {
+		if r.Unsupported != "" {
+			fmt.Printf("UNSUPPORTED %s: %s\n", r.Key, r.Unsupported)
+			continue
+		}
+		for _, o := range r.Q.obligs {
+			if o.Status == "proved" || o.Kind == "safe.nil" || o.Kind == "cover" || o.Kind == "pre" {
+				continue
+			}
+			fmt.Printf("%s %s %s:%d %s\n", o.Status, o.Name, o.Pos.Filename, o.Pos.Line, o.Comment)
+		}
+	}
+}
